@@ -92,5 +92,6 @@ func rulesC02(cx *Ctx) []Obligation {
 		obs = append(obs, o)
 	}
 	obs = append(obs, rulesW2(cx)...)
+	obs = append(obs, rulesHintBodies(cx, "C02")...)
 	return obs
 }
